@@ -3,6 +3,7 @@
 # every line must show exit=1 with a VIOLATION.
 cd "$(dirname "$0")/.."
 for d in seeded/${1:-}*/; do
+  case "$(basename "$d")" in _*) continue;; esac
   n=$(basename "$d")
   P=$(python3 -c "import json,sys; print(json.load(open('$d/meta.json'))['property'])")
   out=$(tools/mutant.sh "$PWD/$d/patch.diff" "$P" 2>&1)
